@@ -1373,6 +1373,135 @@ def check_abasis(ctx, hz):
                 break
 
 
+# =============================================================================================
+# Part G: Field generators of make_zernike_basis(…, grid=None) called on two polar grids in any order, against the
+# array-level model `runGensA` (`C13 gens own`); the model with one shared cache (`shared`) is the D130 behaviour
+# =============================================================================================
+
+def gen_polar_grid(rng, D, like=None):
+    """a polar grid description; `like`: same kind and number of points as that one, other points"""
+    kind = like['kind'] if like else ['polar-points', 'polar-separated'][int(rng.integers(0, 2))]
+    g = {'kind': kind, 'D': D}
+    if kind == 'polar-points':
+        k = len(like['r']) if like else None
+        rs = gen_radii(rng, D, int(rng.integers(3, 8)))
+        while k is not None and len(rs) != k:
+            rs = (rs + [float(rng.integers(1, 200)) / 256.0 * D])[:k] if len(rs) < k else rs[:k]
+        g['r'] = rs; g['ang'] = [list(gen_angle(rng)) for _ in rs]
+    else:
+        k = len(like['R']) if like else None
+        R = gen_radii(rng, D, int(rng.integers(3, 7)))
+        while k is not None and len(R) != k:
+            R = (R + [float(rng.integers(1, 200)) / 256.0 * D])[:k] if len(R) < k else R[:k]
+        g['R'] = R
+        g['ang'] = [list(gen_angle(rng)) for _ in range(len(like['ang']) if like else int(rng.integers(1, 5)))]
+    return g
+
+
+def gen_gens_case(rng):
+    D = gen_D(rng)
+    A = gen_polar_grid(rng, D)
+    B = gen_polar_grid(rng, D, like=A if rng.random() < 0.5 else None)      # same size, other points: a stale cache would go unnoticed by shapes
+    ansi = bool(rng.random() < 0.5)
+    num = int(rng.integers(1, 9))
+    lo = 0 if ansi else 1
+    total = (NMAX + 1) * (NMAX + 2) // 2
+    start = int(rng.integers(lo, lo + total - num + 1)) if rng.random() < 0.7 else lo
+    calls = [[int(rng.integers(0, num)), int(rng.integers(0, 2))] for _ in range(int(rng.integers(2, 2 * num + 4)))]
+    if rng.random() < 0.5:
+        calls = [[j, 0] for j in range(num)] + [[j, 1] for j in range(num)] + calls[:3]
+    return {'what': 'gens', 'D': D, 'A': A, 'B': B, 'ansi': ansi, 'num': num, 'start': start, 'calls': calls,
+            'cut': [None, True, False][int(rng.integers(0, 3))], 'use_cache': [None, True, False][int(rng.integers(0, 3))]}
+
+
+def run_gens(hz, case):
+    """Returns (bad, observed vectors per call, [(pts, amb)] per grid, magnitudes per call)"""
+    D = case['D']
+    built = [build(case['A']), build(case['B'])]
+    info = [cut_info(pts, D) for _, pts in built]
+    cut = True if case['cut'] is None else case['cut']
+    kw = {}
+    if case['cut'] is not None:
+        kw['radial_cutoff'] = case['cut']
+    if case['use_cache'] is not None:
+        kw['use_cache'] = case['use_cache']
+    tag = 'make_zernike_basis(%d,D=%r,None,starting_mode=%d,ansi=%r%s)' % (case['num'], D, case['start'], case['ansi'], ''.join(',%s=%r' % kv for kv in kw.items()))
+    try:
+        gens = hz.make_zernike_basis(case['num'], D, None, case['start'], case['ansi'], **kw)
+        if len(gens) != case['num']:
+            raise ValueError('%d generators' % len(gens))
+    except Exception as e:      # noqa
+        return [('generator-grid raises', '%s raises %s: %s' % (tag, type(e).__name__, e), 0)], None, built, info, []
+    bad, obs, mags = [], [], []
+    for ci, (j, k) in enumerate(case['calls']):
+        grid, pts = built[k]
+        outside, amb = info[k]
+        n, m = documented_mode(case['ansi'], case['start'] + j)
+        try:
+            with warnings.catch_warnings():
+                warnings.simplefilter('ignore')
+                z = np.array(gens[j](grid), dtype=float).copy()
+        except Exception as e:      # noqa
+            z = 'raises-' + type(e).__name__
+        obs.append(z)
+        ref, mag = reference(n, m, D, cut, pts, outside)
+        mags.append(mag)
+        c = compare_vec(z, ref, mag, amb, cut, len(pts[1]))
+        if c and not any(key == 'generator-grid ' + c[0] for key, _, _ in bad):
+            bad.append(('generator-grid ' + c[0], '%s: generator %d (documented mode n=%d, m=%d) called on grid %s (%s, %d points) as call number %d: %s' % (
+                tag, j, n, m, 'AB'[k], case['AB'[k]]['kind'], len(pts[1]), ci, c[1]), ci))
+    return bad, obs, built, info, mags
+
+
+def check_gens(ctx, hz):
+    rng = ctx.rng
+    cases = [gen_gens_case(rng) for _ in range(ctx.scale(60, 1200))]
+    lines, slots = [], []
+    for case in cases:
+        bad, obs, built, info, mags = run_gens(hz, case)
+        seen = set()
+        for key, what, ci in bad:
+            if key in seen:
+                continue
+            seen.add(key)
+            small = dict(case, calls=case['calls'][:ci + 1])
+            for cand in (dict(case, calls=[case['calls'][ci]]), dict(case, calls=[[case['calls'][ci][0], 1 - case['calls'][ci][1]], case['calls'][ci]])):
+                if any(k == key for k, _, _ in run_gens(hz, cand)[0]):
+                    small = cand; break
+            ctx.violation(key, what, small)
+        ctx.count('gens:%s+%s' % (case['A']['kind'], case['B']['kind'])); ctx.count('gens-calls', len(case['calls']))
+        ctx.count('gens:same-size=%r' % (len(built[0][1][1]) == len(built[1][1][1])))
+        ctx.count('gens:use_cache=%r' % (case['use_cache'],))
+        cut = True if case['cut'] is None else case['cut']
+        calls = []
+        for j, k in case['calls']:
+            n, m = documented_mode(case['ansi'], case['start'] + j)
+            ctx.case(None, ('gens', case['AB'[k]]['kind'], n, m, cut))
+            calls.append('%d:%d:%d:%d' % (n, m, cut, k))
+        lines.append(pts_line(built[1][1], case['B'])); lines.append('C13 ptsB'); lines.append(pts_line(built[0][1], case['A']))
+        slots.append((len(lines), case, obs, info, mags, cut))
+        lines.append('C13 gens own %s %s' % (rat(case['D']), ','.join(calls)))
+    out = ctx.model(lines)
+    for idx, case, obs, info, mags, cut in slots:
+        if not out[idx].startswith('ok '):
+            raise MachineryError('model answered %r to %r' % (out[idx][:60], lines[idx]))
+        res = out[idx][3:].split('|')
+        brief = {k: v for k, v in case.items() if k != 'calls'}
+        if len(res) != len(case['calls']):
+            raise MachineryError('gens: %d results for %d calls' % (len(res), len(case['calls'])))
+        for ci, ((j, k), arr) in enumerate(zip(case['calls'], res)):
+            n, m = documented_mode(case['ansi'], case['start'] + j)
+            nf = norm_factor(n, m)
+            mv = np.array([float(nf * (LD(v.numerator) / LD(v.denominator))) for v in parse_rat_list(arr)])
+            ctx.traces_validated += 1
+            if obs is None:
+                ctx.disagree('C13 gens', dict(brief, impl='raises', model='values')); break
+            r = compare_vec(obs[ci], mv, mags[ci], info[k][1], cut, len(mv))
+            if r:
+                ctx.disagree('C13 gens', dict(brief, calls=case['calls'][:ci + 1], mode=[n, m], detail=r[1]))
+                break
+
+
 # ---- spellings
 
 def grid_only(rng, big=False):
@@ -1603,6 +1732,7 @@ def run(ctx):
                 'D as int/float/0-d array/np.float64, positional vs keyword), each against the definition for the mode the documented ordering names and against the model. '
                 '(E) the radial polynomial as a polynomial: zernike_radial run on the symbolic argument numpy Polynomial([0,1]) (all 121 pairs n <= 20, any request order, with/without one shared cache) against the factorial coefficients (oracle) and the coefficient lists of the model recursion (radialPoly); peval of the model list = radialEval = the code at sampled radii (0, 1, 2^-20, k/256); the Gram matrix of zernike_radial under 32-point Gauss-Legendre quadrature with weight r against delta/(2(n+1)) (oracle) and the exact integral of the model product polynomial (pint01). '
                 '(F) make_zernike_basis(num, D, grid, starting_mode, ansi, radial_cutoff, use_cache) on unstructured and separated polar grids (all 231 modes directed, random windows of indices, every combination of the keyword defaults): every column against the definition of the mode the documented ordering names (oracle) and against the column of the array-level model basisA (C13 abasis), grid coordinates byte-identical afterwards. '
+                '(G) the Field generators of make_zernike_basis(num, D, None, …) called in random order (some repeatedly) on two polar grids (half of the time of equal size but different points), each call against the definition on the grid it was handed (oracle) and against the model runGensA without a shared cache (C13 gens own). '
                 'Non-trivial = a mode evaluation on a non-empty grid; distinct by (grid kind, n, m, cutoff, cache, centre present, rim present).')
     ctx.assumptions += ['np.hypot / arctan2 / cos / sin / pow are accurate to a few ulp',
                         'float sqrt in the index maps is tied only on the exhaustively compared range',
@@ -1622,7 +1752,9 @@ def run(ctx):
     check_polynomials(ctx, hz)
     ctx.extra['time_polynomials_s'] = round(time.time() - t, 1); t = time.time()
     check_abasis(ctx, hz)
-    ctx.extra['time_abasis_s'] = round(time.time() - t, 1)
+    ctx.extra['time_abasis_s'] = round(time.time() - t, 1); t = time.time()
+    check_gens(ctx, hz)
+    ctx.extra['time_gens_s'] = round(time.time() - t, 1)
     by = {}
     for d in ctx.disagreements:
         by[d['stream']] = by.get(d['stream'], 0) + 1
@@ -1664,6 +1796,11 @@ def replay(ctx, case):
     elif what == 'noll-injective':
         seen = set(hz.noll_to_zernike(i) for i in range(1, case['N'] + 1))
         ok = len(seen) == case['N']
+    elif what == 'gens':
+        bad = run_gens(hz, case)[0]
+        for key, what_, _ in bad[:5]:
+            print('  fails:', key, '-', what_)
+        ok = not bad
     elif what == 'abasis':
         bad = run_abasis(hz, case)[0]
         for key, what_, _ in bad[:5]:
